@@ -1350,7 +1350,7 @@ fn sym3_channels() -> Vec<Channel> {
         ch("sym3.quad_form", Tol::Exact, run_sym3_quad, Some(oracle_sym3_quad), "DenseMatrixSym3::quad_form", "Sym3.quadForm"),
         ch("sym3.norm_fro", Tol::Exact, run_sym3_norm, Some(oracle_sym3_norm), "DenseMatrixSym3::norm_fro", "Sym3.normFro"),
         ch("sym3.index_linear", Tol::Exact, run_sym3_index, Some(oracle_sym3_index), "DenseMatrixSym3::index_linear", "Sym3.indexLinear"),
-        ch("sym3.cholesky", Tol::Exact, run_sym3_chol, Some(oracle_sym3_chol), "DenseMatrixSym3::cholesky_3x3_explicit_{factor,solve}", "Sym3.choleskyFactor / Sym3.choleskySolve"),
+        ch("sym3.cholesky", Tol::Exact, run_sym3_chol, Some(oracle_sym3_chol), "DenseMatrixSym3::cholesky_3x3_explicit_factor / DenseMatrixSym3::cholesky_3x3_explicit_solve", "Sym3.choleskyFactor / Sym3.choleskySolve"),
     ]
 }
 
@@ -1363,7 +1363,7 @@ macro_rules! cone_channels {
             ch(concat!($p, ".barrier_primal"), T_ULP, run_barrier_primal, Some(oracle_barrier_primal), concat!($rs, "::barrier_primal"), concat!($ln, ".barrierPrimal")),
             ch(concat!($p, ".gradient_primal"), T_ULP, run_gradient_primal, Some(oracle_gradient_primal), concat!($rs, "::gradient_primal"), concat!($ln, ".gradientPrimal / C14 conjugacy")),
             ch(concat!($p, ".update_dual_grad_H"), T_ULP, run_update_dual_grad_H, Some(oracle_update_dual_grad_H), concat!($rs, "::update_dual_grad_H"), concat!($ln, ".updateDualGradH / C14 grad_hasDerivAt, hess_hasDerivAt, log_homogeneity")),
-            ch(concat!($p, ".update_scaling"), T_ULP, run_update_scaling, Some(oracle_update_scaling), concat!($rs, "::update_scaling, mul_Hs, get_Hs; use_primal_dual_scaling / use_dual_scaling"), concat!($ln, ".updateScaling / Nonsym.usePrimalDualScaling / C14.pd_scaling")),
+            ch(concat!($p, ".update_scaling"), T_ULP, run_update_scaling, Some(oracle_update_scaling), concat!($rs, "::update_scaling, mul_Hs, get_Hs; Nonsymmetric3DConeUtils::update_Hs (the Dual / PrimalDual dispatch) -> use_primal_dual_scaling / use_dual_scaling (fields reached through the getter split_borrow_mut)"), concat!($ln, ".updateScaling / Nonsym.usePrimalDualScaling / C14.pd_scaling")),
             ch(concat!($p, ".unit_initialization"), Tol::Exact, run_unit_initialization, Some(oracle_unit_initialization), concat!($rs, "::unit_initialization"), concat!($ln, ".unitInitialization / C14.central_point")),
             ch(concat!($p, ".compute_barrier"), T_ULP, run_compute_barrier, Some(oracle_compute_barrier), concat!($rs, "::compute_barrier"), concat!($ln, ".computeBarrier")),
             ch(concat!($p, ".combined_ds_shift"), T_ULP, run_combined_ds_shift, Some(oracle_combined_ds_shift), concat!($rs, "::combined_ds_shift"), concat!($ln, ".combinedDsShift / C14 combined_ds_shift")),
